@@ -8,20 +8,37 @@
 #include <dune/common/lru.hh>
 #include <dune/common/exceptions.hh>
 #include "c11_common.hh"
+#include <memory>
 
-static void run(int nkeys, const std::vector<std::string>& ops)
+template<class V>
+static void run_t(int nkeys, const std::vector<std::string>& ops)
 {
-  Dune::lru<int, int> c;
+  using LRU = Dune::lru<int, V>;
+  std::unique_ptr<LRU> cp(new LRU);
   for (const auto& o : ops) {
+    LRU& c = *cp;
     auto t = c11::split(o, ':');
     std::string ret = "_";
-    if (t[0] == "ins") { int& r = c.insert((int) c11::num(t[1]), (int) c11::num(t[2])); ret = "v" + std::to_string(r); }
+    if (t[0] == "ins") { V& r = c.insert((int) c11::num(t[1]), V((int) c11::num(t[2]))); ret = "v" + std::to_string((int) r); }
+    else if (t[0] == "insa") {                                   // ALIASING: the data argument is a value stored in the cache itself
+      V& r = c.insert((int) c11::num(t[1]), c.find((int) c11::num(t[2]))->second); ret = "v" + std::to_string((int) r); }
+    else if (t[0] == "toucha") {                                 // ALIASING: the key argument is the key stored in the touched node
+      V& r = c.touch(c.find((int) c11::num(t[1]))->first); ret = "v" + std::to_string((int) r); }
+    else if (t[0] == "cpy") {                                    // copy construction; the source stays alive and must be unaffected by what happens to the copy
+      LRU d(c);
+      if (d.size() != c.size()) ret = "!cpysize";
+      if (d.size() > 0) { d.insert(0, V(-1)); d.insert(1, V(-2)); d.touch(0); d.pop_back(); d.insert(2, V(-3)); }
+      else d.insert(0, V(-1));
+    }
+    else if (t[0] == "cpyd") { std::unique_ptr<LRU> n(new LRU(c)); cp.swap(n); }                 // continue on the copy, source destroyed
+    else if (t[0] == "cpya") { LRU tmp; tmp.insert(3, V(9)); tmp = c; LRU& self = tmp; tmp = self;
+                               std::unique_ptr<LRU> n(new LRU); *n = tmp; cp.swap(n); }          // copy assignment incl. self-assignment
     else if (t[0] == "ins1") {                                     // insert(key): documented as touch(key)
-      try { int& r = c.insert((int) c11::num(t[1])); ret = "v" + std::to_string(r); }
+      try { V& r = c.insert((int) c11::num(t[1])); ret = "v" + std::to_string((int) r); }
       catch (Dune::RangeError&) { ret = "RE"; }
     }
     else if (t[0] == "touch") {
-      try { int& r = c.touch((int) c11::num(t[1])); ret = "v" + std::to_string(r); }
+      try { V& r = c.touch((int) c11::num(t[1])); ret = "v" + std::to_string((int) r); }
       catch (Dune::RangeError&) { ret = "RE"; }
     }
     else if (t[0] == "popf") c.pop_front();
@@ -29,40 +46,47 @@ static void run(int nkeys, const std::vector<std::string>& ops)
     else if (t[0] == "rsz") c.resize((std::size_t) c11::num(t[1]));
     else if (t[0] == "cl") c.clear();
     else { c11::step_done("UNKNOWN-OP"); continue; }
+    LRU& c2 = *cp;
+#define c c2
     std::string obs = ret + " " + std::to_string(c.size()) + " ";
-    if (c.size() > 0) obs += std::to_string(c.front()) + "," + std::to_string(c.back()); else obs += "-";
+    if (c.size() > 0) obs += std::to_string((int) c.front()) + "," + std::to_string((int) c.back()); else obs += "-";
     obs += " ";
     auto end = c.find(-987654);                       // a key that is never inserted: find() returns end()
     for (int k = 0; k < nkeys; ++k) {
       auto it = c.find(k);
       if (k) obs += "|";
-      if (it == end) obs += "-"; else obs += std::to_string(it->first) + "=" + std::to_string(it->second);
+      if (it == end) obs += "-"; else obs += std::to_string(it->first) + "=" + std::to_string((int) it->second);
     }
     // const access paths agree with the non-const ones
     {
-      const Dune::lru<int, int>& cc = c;
+      const LRU& cc = c;
       std::string flags;
       if (cc.size() != c.size()) flags += "!csize";
-      if (c.size() > 0 && cc.front() != c.front()) flags += "!cfront";
+      if (c.size() > 0 && (int) cc.front() != (int) c.front()) flags += "!cfront";
 #ifdef C11_LRU_CONST_BACK
-      if (c.size() > 0 && cc.back() != c.back()) flags += "!cback";
+      if (c.size() > 0 && (int) cc.back() != (int) c.back()) flags += "!cback";
 #else
-      if (c.size() > 0 && cc.back(0) != c.back()) flags += "!cback";     // the snapshot's const back takes a stray int
+      if (c.size() > 0 && (int) cc.back(0) != (int) c.back()) flags += "!cback";     // the snapshot's const back takes a stray int
 #endif
 #ifdef C11_LRU_CONST_FIND
       auto cend = cc.find(-987654);
       for (int k = 0; k < nkeys; ++k) {
         auto a = c.find(k); auto b = cc.find(k);
-        if ((a == end) != (b == cend) || (a != end && (a->first != b->first || a->second != b->second))) flags += "!cfind";
+        if ((a == end) != (b == cend) || (a != end && (a->first != b->first || (int) a->second != (int) b->second))) flags += "!cfind";
       }
 #endif
       obs += flags;
     }
     c11::step_done(obs);
+#undef c
   }
+  cp.reset();
+  c11::leak_step();
 }
 
 int main(int argc, char** argv)
 {
-  return c11::main_loop(argc, argv, "lru", [](int nk, const std::vector<std::string>& ops) { run(nk, ops); });
+  // value-type family: nkeys + 1000 = the same with the instance-tracking value type
+  return c11::main_loop(argc, argv, "lru", [](int nk, const std::vector<std::string>& ops) {
+    if (nk >= 1000) run_t<c11::Tracked>(nk - 1000, ops); else run_t<int>(nk, ops); });
 }
